@@ -66,6 +66,11 @@ CHECKS = {
    text="Exhaustive enumeration of batch sequences on the real ValidatorAddrsWatch::update / announce (hook VAddrsWatch): every sequence of the scope - one batch of <= 3 announcements, a batch of <= 2 followed by a batch of <= 2 (quick) / <= 3 (thorough), the node's own announcement before / between batches, thorough: three batches of <= 2 - over a 9-symbol alphabet (two committee members with several (version, timestamp, address) combinations incl. version u64::MAX, a forged newer and a forged older copy, a non-member's valid announcement; repeated keys arise from repetition). After every batch the real book is compared with the stated rule on a map: rejected batch leaves the book unchanged, batches with a duplicated key or a forged newer entry are rejected, non-members ignored, only strictly newer (version, timestamp) replaces, every stored entry is authentic. Plus every subset of <= 4 valid announcements delivered in every arrival order ends in the same book.",
    note="Two members and one non-member; BLS signatures trusted; equal (version, timestamp) ties excluded from order independence as the property states.",
    technique="exhaustive bounded enumeration of operation sequences on the real code against a reference model"),
+ "C19": dict(
+   category="model_checking", design="DESIGN.md §4 C19, §2.2",
+   text="Stateless exploration under the controlled tokio scheduler of drivers around the real gossip fetch::Queue (hook VFetchQueue): scenario 1 - requests for blocks 3, 5, 7 (7 under a deadline that passes on the manual clock), peer connection 0 announcing 0..5 and later 0..9, connection 1 announcing 0..9; scenario 2 - requests 5 and 6 with both peers announcing 0..5 (peer 0 later 0..6). Every accepted call succeeds, fails (completion dropped) or its worker disconnects by environment choice. All executions within deviation bound 3 (quick, time-capped) / 5 (thorough). Oracle over the event log: a block is handed only to a connection whose announced range contains it and is held by one connection at a time; request() returns Ok only after a success; a failed / disconnected request is outstanding again; a cancelled request leaves the queue; at every quiescent point no lowest outstanding request is available at an idle live connection (lost wake-up).",
+   note="'lowest missing block first' is checked through the quiescence condition, not at each accept (a lower request may legitimately be inserted between the availability wait and the removal).",
+   technique="stateless model checking of the implementation under a controlled scheduler: exhaustive enumeration of task interleavings and environment outcomes (deviation-bounded) against an event-log oracle"),
 }
 
 def main():
